@@ -67,6 +67,17 @@ func (w *World) applyParam(st *Step) {
 			n.app.StorageKeeper.SetParams(ctx, np)
 		}
 		w.Fault("param_change")
+	case "mint":
+		for _, n := range w.nodes {
+			ctx := w.ctxOf(n)
+			p := n.app.MintKeeper.GetParams(ctx)
+			np := p
+			if !overlayJSON(&np, st.N) || np.Validate() != nil || !pairsValid(np.ParamSetPairs()) {
+				return
+			}
+			n.app.MintKeeper.SetParams(ctx, np)
+		}
+		w.Fault("param_change")
 	}
 }
 
